@@ -512,12 +512,33 @@ def analyse_client(text: str) -> dict:
                         == ["object.__setattr__(transport, '_last_stream_session', session)"]
                     )
                     order_ok = bool(opened and tracked and i_sess is not None and i_send < i_sess)
+    # every call fetches `transport.writer` / `.reader` when it is MADE (the pool's leak detection hangs on the `writer`
+    # property): both caller factories keep the transport object, the inner `caller` sends with `transport.writer`, and no
+    # reader/writer is captured when the (cached) caller is built
+    def per_call_fetch(factory: ast.FunctionDef | None, reads: bool) -> bool:
+        if factory is None:
+            return False
+        inner = next((n for n in factory.body if isinstance(n, ast.FunctionDef) and n.name == "caller"), None)
+        if inner is None or not any(u(x) == "transport = self._transport" for x in factory.body):
+            return False
+        outside = [x for x in factory.body if x is not inner]
+        captured = any(isinstance(n, ast.Attribute) and n.attr in ("writer", "reader") for x in outside for n in ast.walk(x))
+        sends = [n for n in ast.walk(inner) if isinstance(n, ast.Call) and u(n.func) == "_send_request"]
+        sends_ok = len(sends) == 1 and bool(sends[0].args) and u(sends[0].args[0]) == "transport.writer"
+        streams = {u(n) for n in ast.walk(inner) if isinstance(n, ast.Attribute) and n.attr in ("writer", "reader")}
+        reads_ok = (not reads) or any(
+            isinstance(n, ast.Call) and u(n.func) == "ipc.open_stream" and [u(a) for a in n.args] == ["transport.reader"]
+            for n in ast.walk(inner)
+        )
+        return bool(not captured and sends_ok and reads_ok and streams <= {"transport.writer", "transport.reader"})
+
+    fetch_ok = per_call_fetch(_fns(px).get("_make_unary_caller"), True) and per_call_fetch(mk, False)
     # RpcConnection.__exit__ closes the transport (that is what returns the worker)
     rc = _cls(tree, "RpcConnection")
     ex = _fns(rc).get("__exit__")
     exit_ok = ex is not None and u(_strip_logs(_body(ex))[-1]) == "self._transport.close()"
     nodes = [sf[k] for k in ("close", "cancel", "_drain_output", "exchange", "tick") if k in sf]
-    return {"shapeClient": bool(drained_ok and order_ok and exit_ok), "fp_client": _fingerprint(*nodes, *( [mk] if mk is not None else []))}
+    return {"shapeClient": bool(drained_ok and order_ok and exit_ok and fetch_ok), "fp_client": _fingerprint(*nodes, *( [mk] if mk is not None else []))}
 
 
 def _b(x: bool) -> str:
@@ -595,7 +616,8 @@ def shapeLocking : Bool := {_b(a["shapeLocking"])}
 `self._pool._return_worker(self._inner, stream_abandoned)` -/
 def shapePooled : Bool := {_b(a["shapePooled"])}
 
-/-- client side: the stream caller sets `_stream_opened` right after `_send_request` and `_last_stream_session` once the
+/-- client side: both (cached) caller factories keep the transport and send each request with `transport.writer` fetched
+at call time — nothing is captured when the caller is built; the stream caller sets `_stream_opened` right after `_send_request` and `_last_stream_session` once the
 session exists; `StreamSession._drained` becomes `True` only when a drain reached the EOS marker: it is assigned `False`
 (constructor), the result of `_drain_output()` (in `close` / `cancel`) and, inside `_drain_output`, its local `reached_eos`
 before the exception of an `on_log` callback is re-raised; `_drain_output` yields `True` only through its
